@@ -181,8 +181,8 @@ class Pending(InstructionGenerator):
 class BenignQueue(InstructionGenerator):
     """C18 workload: departures of charging vehicles and abandonment of the queue, nothing invalid."""
 
-    def __init__(self, seed: int, p_leave: float = 0.05, p_abandon: float = 0.02, p_resend: float = 0.0):
-        self.seed, self.p_leave, self.p_abandon, self.p_resend = seed, p_leave, p_abandon, p_resend
+    def __init__(self, seed: int, p_leave: float = 0.05, p_abandon: float = 0.02, p_resend: float = 0.0, p_topup: float = 0.0):
+        self.seed, self.p_leave, self.p_abandon, self.p_resend, self.p_topup = seed, p_leave, p_abandon, p_resend, p_topup
 
     @property
     def name(self) -> str:
@@ -202,6 +202,21 @@ class BenignQueue(InstructionGenerator):
                 # a stateless controller repeating "go and charge there" to a vehicle that is already waiting there
                 # (the built-in off-shift human driver logic does the same every step)
                 out.append(DispatchStationInstruction(v.id, v.vehicle_state.station_id, v.vehicle_state.charger_id))
+            elif n == "Idle" and x < self.p_topup:
+                # a depot rule "top up whenever you stand around", whatever the state of charge: full vehicles join queues too
+                mech = env.mechatronics.get(v.mechatronics_id)
+                if mech is not None and mech.is_full(v):
+                    # prefer a plug type that is busy (that is where the queue is), else the first usable one
+                    cands = [
+                        (0 if not st.has_available_charger(c) else 1, st.id, c)
+                        for st in sim.get_stations()
+                        if st.membership.grant_access_to_membership(v.membership)
+                        for c in sorted(st.state)
+                        if c in st.on_shift_access_chargers and mech.valid_charger(st.state[c].charger)
+                    ]
+                    if cands:
+                        _, sid, cid = min(cands)
+                        out.append(DispatchStationInstruction(v.id, sid, cid))
         return self, tuple(out)
 
 
